@@ -236,6 +236,23 @@ pub fn asn1_value(input: Input<'_>) -> ParserResult<'_, ASN1Value> {
     .parse(input)
 }
 
+/// Parses the references in front of the last field name of a ValueFromObject or
+/// TypeFromObject notation, e.g. `object.&` of `object.&field`. The dot is a lexical
+/// item of its own and may be surrounded by white-space and comments.
+fn object_field_parent(input: Input<'_>) -> ParserResult<'_, String> {
+    map(
+        many1(terminated(
+            identifier,
+            pair(
+                skip_ws_and_comments(char(DOT)),
+                skip_ws_and_comments(char(AMPERSAND)),
+            ),
+        )),
+        |references| references.into_iter().map(|r| format!("{r}.&")).collect(),
+    )
+    .parse(input)
+}
+
 pub fn elsewhere_declared_value(input: Input<'_>) -> ParserResult<'_, ASN1Value> {
     map(
         (
@@ -243,15 +260,12 @@ pub fn elsewhere_declared_value(input: Input<'_>) -> ParserResult<'_, ASN1Value>
                 skip_ws_and_comments(module_reference),
                 skip_ws_and_comments(char(DOT)),
             )),
-            opt(skip_ws_and_comments(recognize(many1(pair(
-                identifier,
-                tag(".&"),
-            ))))),
+            opt(skip_ws_and_comments(object_field_parent)),
             skip_ws_and_comments(value_reference),
         ),
         |(m, p, id)| ASN1Value::ElsewhereDeclaredValue {
             module: m.map(str::to_owned),
-            parent: p.map(|par| par.inner().to_string()),
+            parent: p,
             identifier: id.into(),
         },
     )
@@ -261,10 +275,7 @@ pub fn elsewhere_declared_value(input: Input<'_>) -> ParserResult<'_, ASN1Value>
 pub fn elsewhere_declared_type(input: Input<'_>) -> ParserResult<'_, ASN1Type> {
     map(
         (
-            opt(skip_ws_and_comments(into_inner(recognize(many1(pair(
-                identifier,
-                tag(".&"),
-            )))))),
+            opt(skip_ws_and_comments(object_field_parent)),
             opt(skip_ws_and_comments(terminated(
                 module_reference,
                 skip_ws_and_comments(char(DOT)),
@@ -274,7 +285,7 @@ pub fn elsewhere_declared_type(input: Input<'_>) -> ParserResult<'_, ASN1Type> {
         ),
         |(parent, module, id, constraints)| {
             ASN1Type::ElsewhereDeclaredType(DeclarationElsewhere {
-                parent: parent.map(str::to_owned),
+                parent,
                 module: module.map(str::to_owned),
                 identifier: id.to_owned(),
                 constraints: constraints.unwrap_or_default(),
